@@ -58,6 +58,10 @@ def variants():
         "g": lambda: g,
         "g-arg1": lambda: P(g, ["input0", 1]),
         "g-arg2": lambda: P(g, ["input0", 2]),
+        # statics that print alike but are different values
+        "g-argstr1": lambda: P(g, ["input0", "1"]),
+        "g-argNone": lambda: P(g, ["input0", 0, 0, None]),
+        "g-argstrNone": lambda: P(g, ["input0", 0, 0, "None"]),
         "g-kw1": lambda: P(g, kwargs={"k": 1}),
         "g-kw2": lambda: P(g, kwargs={"k": 2}),
         "g-partial1": lambda: functools.partial(g, c=1),
@@ -208,7 +212,7 @@ def reproducibility_part(ctx, out):
     n1, n2 = names(), names()
     if n1 != n2:
         out.append(({"monitor": "names_not_reproducible", "cause": "building the same program twice in one process gives different names"}, "", {"part": "repro"}))
-    code = "import sys, json; sys.path.insert(0, '/repo/src'); sys.path.insert(0, %r); import logging; logging.disable(50); from vf.checks import c14; out=[]; import vf.common as c; c.bind_repo(); print('NAMES' + json.dumps(c14.reproducibility_names()))" % common.VERIF
+    code = "import sys, json; sys.path.insert(0, %r); sys.path.insert(0, %r); import logging; logging.disable(50); from vf.checks import c14; out=[]; import vf.common as c; c.bind_repo(); print('NAMES' + json.dumps(c14.reproducibility_names()))" % (common.REPO_SRC, common.VERIF)
     env = dict(os.environ, PYTHONHASHSEED="4242")
     r = subprocess.run([sys.executable, "-W", "ignore", "-c", code], capture_output=True, text=True, env=env, timeout=300)
     line = [l for l in r.stdout.splitlines() if l.startswith("NAMES")]
